@@ -57,7 +57,9 @@ impl GroupLocalProcessor {
     fn should_merge(&self, first: &VariableAssignment, next: &mut VariableAssignment) -> bool {
         let first_value_count = first.values_len();
 
-        if first.variables_len() > first_value_count && first_value_count != 0 {
+        // when the first statement does not have exactly one value per variable, appending
+        // more values would shift which value is assigned to which variable
+        if first.variables_len() != first_value_count && first_value_count != 0 {
             return false;
         }
 
